@@ -36,7 +36,10 @@ def run(patch, check):
                 sh("rm -rf /verif/%s" % line[3:].strip())
     sigs = re.findall(r"^--- \S+ part=(\S+) signature=(\S+)", out, re.M)
     if p.returncode == 1:
-        return "DETECTED " + ", ".join(sorted({"%s/%s" % s for s in sigs}))[:200]
+        names = sorted({"%s/%s" % s for s in sigs})
+        if not names:  # a saved regression case failed in the replay tier, which stops the check at once
+            names = sorted({"replay:" + r for r in re.findall(r"replay=\S+/([^/\s]+)\.json", out)})
+        return "DETECTED " + ", ".join(names)[:200]
     if p.returncode == 0:
         return "missed"
     return "inconclusive(rc=%d)" % p.returncode
